@@ -255,7 +255,7 @@ Qed.
 (* ------------------------------------------------------------------------------------------------ histories *)
 Lemma step_trace w o : w_trace (step w o) = (w_trace w ++ op_trace o)%list.
 Proof.
-  unfold step, op_trace. destruct (construct o) as [[oc tr]|] eqn:E; [reflexivity|].
+  unfold step, step_gen, op_trace. destruct (construct o) as [[oc tr]|] eqn:E; [reflexivity|].
   destruct o; cbn in E; try discriminate.
   - destruct (nth_error (w_nodes w) i) as [n|]; [|symmetry; apply app_nil_r].
     destruct n; cbn; reflexivity.
@@ -287,6 +287,13 @@ Proof.
   intros H w. rewrite history_trace. replace (flat_map op_trace l) with (@nil call); [apply app_nil_r|].
   induction l as [|o l IH]; [reflexivity|]. cbn [forallb] in H. apply andb_prop in H. destruct H as [Ho Hl].
   cbn [flat_map]. rewrite <- (IH Hl). destruct o; cbn in Ho; try discriminate; reflexivity.
+Qed.
+
+Lemma construct_gen_repaired o : construct_gen true true o = construct o.
+Proof. destruct o; reflexivity. Qed.
+Lemma run_ops_on_repaired l : run_ops_on true true l = run_ops empty_world l.
+Proof.
+  unfold run_ops_on, run_ops, step. f_equal.
 Qed.
 
 (* builds do what they are for: they reproduce the stored signature of each subgraph *)
